@@ -4,8 +4,10 @@ use super::*;
 use crate::verif_spec::fmt;
 use crate::verif_spec::src::Src;
 
-fn check_user_data(data: &[u8]) {
-    match (parse_userdata_chunk(data), fmt::user_data(data)) {
+fn check_user_data(data: &[u8]) -> bool {
+    let got = parse_userdata_chunk(data);
+    let decoded_ok = got.is_ok();
+    match (got, fmt::user_data(data)) {
         (Ok(u), Some(w)) => {
             match (&u.text, w.text) {
                 (None, None) => {}
@@ -18,23 +20,24 @@ fn check_user_data(data: &[u8]) {
         (Ok(_), None) => assert!(false, "decoder accepted a user data chunk the format rejects"),
         (Err(_), Some(_)) => assert!(false, "decoder rejected a well-formed user data chunk"),
     }
+    decoded_ok
 }
 
 macro_rules! ud_shape {
-    ($hname:ident, $n:expr) => {
+    ($hname:ident, $n:expr, $u:expr, $can_ok:expr) => {
         crate::verif_harness! {
             /// parse_userdata_chunk on every payload of exactly $n bytes.
             #[kani::stub(std::fmt::format, crate::verif_spec::stubs::format_stub)]
-            #[kani::unwind(8)]
+            #[kani::unwind($u)]
             fn $hname(s) {
                 let d: [u8; $n] = s.bytes();
-                check_user_data(&d);
-                crate::vcover!(parse_userdata_chunk(&d).map_or(false, |u| u.text.is_some() && u.color.is_some()), "both present");
-                crate::vcover!(parse_userdata_chunk(&d).map_or(false, |u| u.text.is_none() && u.color.is_none()), "neither present");
+                let ok = check_user_data(&d);
+                crate::vcover!(ok || !$can_ok, "a well-formed payload of this size decodes");
+                crate::vcover!(!ok, "a malformed payload of this size is rejected");
             }
         }
     };
 }
-ud_shape!(k_user_data_4, 4);
-ud_shape!(k_user_data_8, 8);
-ud_shape!(k_user_data_12, 12);
+ud_shape!(k_user_data_4, 4, 3, true);
+ud_shape!(k_user_data_8, 8, 5, true);
+ud_shape!(k_user_data_12, 12, 9, true);
